@@ -141,6 +141,19 @@ VP_ENTRY vp_main_pfor_nested()
   vp_reach("end");
 }
 
+// nested loops large enough to fill the (hook-shrunk, RKCOMMON_VERIF_PIPESIZE_LOG2) per-thread pipe: the scheduler's
+// pipe-full fallback (run a fraction inline, hand the rest back) must still visit every pair exactly once
+VP_ENTRY vp_main_pfor_nested_full()
+{
+  vp_nothrow(true);
+  init_threads();
+  static int cnt[12][6]; for (int i = 0; i < 12; i++) for (int j = 0; j < 6; j++) cnt[i][j] = 0;
+  int n = 8 + 4 * (int)VPC(2), m = 3 + 3 * (int)VPC(2);       // outer 8 / 12, inner 3 / 6
+  parallel_for(n, [&](int i) { parallel_for(m, [&](int j) { g_calls++; cnt[i][j]++; }); });
+  for (int i = 0; i < 12; i++) for (int j = 0; j < 6; j++) vp_assert(cnt[i][j] == ((i < n && j < m) ? 1 : 0), "nested parallel_for with a full pipe: every (i,j) exactly once, visible on return");
+  vp_reach("end");
+}
+
 template <int B> static void t_blocks()
 {
   vp_nothrow(true);
